@@ -1048,7 +1048,7 @@ def main():
         workdir = tempfile.mkdtemp(prefix='c19-', dir=payload.get('tmp') or None)
         try:
             outs = []
-            slow = 0
+            slow = int(payload.get('slow_so_far', 0))
             for n, case in enumerate(payload['cases']):
                 case['n'] = n
                 if slow >= int(payload.get('max_hung', 12)):
